@@ -136,6 +136,41 @@ def _norm_of(call: ast.Call) -> str:
     return unparse(n) if n is not None else "None"
 
 
+def _rule_shift_pairing(check, repo: Repo) -> None:
+    """R9: fftshift and ifftshift are inverse to each other; fftshift∘fftshift is the identity only on even-length axes.  A value that was brought to the centred
+    frame by `fftshift` must be brought back by `ifftshift` (and vice versa): a data-flow chain that applies the SAME shift function twice leaves every odd-length
+    axis rolled by one sample."""
+    tm, fp = repo.func(f"{PT}:Ptychography.fourier_projection")
+    shifts = [c for c in calls_in(fp) if (call_name(c) or "").split(".")[-1] in ("fftshift", "ifftshift") and c.args]
+
+    def upstream(e_, seen):
+        """shift calls in the definition closure of e_ (not crossing another shift of the opposite kind — that one undoes it)"""
+        out = []
+        for x in ast.walk(e_):
+            if isinstance(x, ast.Call) and (call_name(x) or "").split(".")[-1] in ("fftshift", "ifftshift") and x.args:
+                out.append(x)
+            elif isinstance(x, ast.Name) and x.id not in seen:
+                seen.add(x.id)
+                for d in definitions(fp, x.id):
+                    if isinstance(d, ast.AST):
+                        out.extend(upstream(d, seen))
+        return out
+    n = 0
+    for c in shifts:
+        kind = (call_name(c) or "").split(".")[-1]
+        ups_ = [u for u in upstream(c.args[0], set()) if u is not c]      # `x = ifftshift(x)`: the flow-insensitive closure of x contains this very call
+        same = [u for u in ups_ if (call_name(u) or "").split(".")[-1] == kind]
+        opp = [u for u in ups_ if (call_name(u) or "").split(".")[-1] != kind]
+        if not ups_:
+            continue
+        n += 1
+        check.decide(not (same and not opp), "C16-R9", f"fourier_projection: `{unparse(c)[:50]}` undoes an earlier shift with the INVERSE function", "", tm.line(c), definite=True,
+                     fail_detail=f"`{unparse(c)[:60]}` is applied to a value that already went through `{unparse(same[0])[:50]}`: {kind}∘{kind} is the identity only on even-length "
+                                 f"axes — for an odd detector dimension the spectrum stays rolled by one pixel, the projected wave does not carry the measured amplitudes and the "
+                                 f"projection is not idempotent" if same else "")
+    check.extra["shift_chains"] = n
+
+
 def _rule_back_propagation(check, repo: Repo) -> None:
     """R8: the analytical back-propagation applies the ELEMENT-WISE conjugate of the forward kernel.  The propagator is a multiplier in Fourier
     space (a diagonal operator): its adjoint — and, being unit-modulus, its inverse — is conj(kernel).  `.adjoint()` / `.mH` / `.H` are the conjugate
@@ -179,6 +214,7 @@ def _rule_back_propagation(check, repo: Repo) -> None:
 def run(check, repo: Repo) -> None:
     propagator_rules(check, repo)
     _rule_back_propagation(check, repo)
+    _rule_shift_pairing(check, repo)
     _run_rest(check, repo)
 
 
@@ -680,3 +716,4 @@ MANIFEST = {
 }
 MANIFEST["text"] += ' Also: frequency vectors are found by their fftfreq definition (extent and sampling of the same axis through casts/destructuring), each broadcast use lies on its own axis, each tilt component multiplies the frequencies of its own axis; the detector model centres with fftshift over the detector axes (the operator the projection inverts).'
 MANIFEST["text"] += ' R8: ObjectPixelated.backward applies the ELEMENT-WISE conjugate of the forward kernel (conj / conj_physical), never a conjugate transpose (.adjoint() / .mH / .H).'
+MANIFEST["text"] += " R9: in fourier_projection a value that went through fftshift is brought back by ifftshift (and vice versa) — the same shift applied twice along a data-flow chain leaves odd-length axes rolled by one sample."
